@@ -219,6 +219,11 @@ STL = {
     'std::queue<unsigned int, std::deque<unsigned int>>': ('bg_queue_u', 'queue_u'),
     'std::unordered_set<unsigned int>': ('bg_uset_u', 'uset_u'),
     'std::unordered_map<unsigned int, unsigned int>': ('bg_umap_uu', 'umap_uu'),
+    'std::__detail::_Node_const_iterator<unsigned int, true, false>': ('bg_uset_it', 'uset_it'),
+    'std::__detail::_Node_iterator<unsigned int, true, false>': ('bg_uset_it', 'uset_it'),
+    'std::unordered_set<unsigned int>::const_iterator': ('bg_uset_it', 'uset_it'),
+    'std::unordered_set<unsigned int>::iterator': ('bg_uset_it', 'uset_it'),
+    'std::__detail::_Node_iterator_base<unsigned int, false>': ('bg_uset_it', 'uset_it'),
     'std::pair<std::vector<unsigned long>, std::vector<unsigned int>>': ('bg_preds', 'preds'),
     'std::tuple<unsigned int, unsigned int, VLabel>': ('bg_ledge_VLabel', 'ledge_VLabel'),
     'std::tuple<unsigned int, unsigned int, unsigned int>': ('bg_ledge_uint', 'ledge_uint'),
@@ -1539,6 +1544,9 @@ class Emitter:
             path_len = len(e.get('path', [])) or 1
             sube = self.strip(sub)
             tgt = self.ctype(e['type'])
+            if tgt.cname == 'bg_uset_it':
+                # libstdc++'s hash iterators compare through their common base: one shim type for both
+                return self.rv_or_lv(sube, out)
             if tgt.ptr or sube['kind'] == 'CXXThisExpr':
                 b = self.rv(sube, out)
                 if b.startswith('&'):
